@@ -5,7 +5,7 @@ package grpcjson
 
 // A line is decoded into the pooled ammo it was given; on a malformed line that same ammo comes back with the error.
 //@ func decodeAmmo
-//@ props C13 C20 C08
+//@ props C13 C20 C08 C10
 //@ nilsafe
 //@ requires am != nil
 //@ modifies am.Tag, am.Call, am.Metadata, am.Payload, am.id, am.isInvalid
@@ -17,12 +17,13 @@ package grpcjson
 // Passes over the file: every chosen entry is sent once, in file order; exactly min(limit, passes x entries) are sent; a reached
 // bound ends the run without error; cancellation is noticed in every pass and at every entry.
 //@ func (p *Provider) start
-//@ props C08 C13 C20
+//@ props C08 C13 C20 C05
 //@ nilsafe
 //@ env pooltype(p.Pool, *ammo.Ammo)
 //@ requires ammoFile != nil && p.Sink != nil && ctx != nil
 //@ ghost sent0 = sent(p.Sink)
 //@ loop 0 invariant [delivered-count] ammoNum == sent(p.Sink) - sent0 && ammoNum >= 0 && passNum >= 0 && imp(p.Limit > 0, ammoNum <= p.Limit)
+//@ loop 0 invariant [every-finished-pass-was-checked-for-scan-failures] calls(scanner.Err) == passNum
 //@ loop 0 invariant [no-malformed-line-so-far-unless-continue-on-error] imp(calls(decodeAmmo) > 0 && !p.Config.ContinueOnError, result_of(decodeAmmo, 1) == nil)
 //@ loop 1 invariant [no-malformed-line-so-far-unless-continue-on-error] imp(calls(decodeAmmo) > 0 && !p.Config.ContinueOnError, result_of(decodeAmmo, 1) == nil)
 //@ loop 0 step [cancellation-is-noticed-in-every-pass] !iter(done(ctx))
@@ -35,3 +36,4 @@ package grpcjson
 //@ at call a.Invalidate assert [only-with-continue-on-error] p.Config.ContinueOnError && result_of(decodeAmmo, 1) != nil
 //@ ensures [malformed-line-fails-the-run-unless-continue-on-error] imp(calls(decodeAmmo) > 0 && result_of(decodeAmmo, 1) != nil && !p.Config.ContinueOnError, result != nil)
 //@ ensures [never-beyond-the-limit] imp(p.Limit > 0, sent(p.Sink) - sent0 <= p.Limit)
+//@ ensures [a-clean-end-means-every-pass-was-checked-for-scan-failures] imp(result == nil && !done(ctx), calls(scanner.Err) == passNum && result_of(scanner.Err, 0) == nil)
